@@ -17,6 +17,17 @@ Definition outcome_ok (x : bool * bool * nat * bool * bool) : bool :=
     (match y_par t with PDoneOk => Nat.eqb (kid_num (y_kid t)) 5 | _ => true end))
     (PositiveMap.elements (SV u s false)).
 
+(** the launcher was killed inside the callback (no ack sent): (userns, callback configured, target ran, the child exited
+    by itself).  The observed end must be an end of the LTS with the parent crashed and nothing more the child can do. *)
+Definition death_ok (x : bool * bool * bool * bool) : bool :=
+  let '(u, s, ran, exited) := x in
+  existsb (fun kv =>
+    let t := snd kv in
+    Nat.eqb (par_num (y_par t)) 6 && negb (y_acked t) && Bool.eqb (y_ran t) ran &&
+    (match kid_steps t with [] => true | _ => false end) &&
+    Bool.eqb exited (Nat.eqb (kid_num (y_kid t)) 7))
+    (PositiveMap.elements (SV u s false)).
+
 Fixpoint indexed {A} (i : N) (l : list A) : list (N * A) :=
   match l with [] => [] | x :: r => (i, x) :: indexed (N.succ i) r end.
 Definition failing {A} (ok : A -> bool) (l : list A) : list N :=
